@@ -430,10 +430,14 @@ func r9_1(c *Ctx, E, enc *ssa.Function) {
 									}
 								}
 							}
-							for _, in := range b.Instrs {
-								if inc, ok := in.(*ssa.BinOp); ok && inc.Op == token.ADD && inc.X == cx {
-									if k, ok := constInt64(inc.Y); ok && k == 1 {
-										okc = true
+							// one at a time: a single ';' and counter+1, repeated (the block loops back to this very test
+							// without passing the header of the loop over the mappings)
+							if _, rep := repeatOf(call, ';'); rep == nil && loopsBackTo(b, ob, header) {
+								for _, in := range b.Instrs {
+									if inc, ok := in.(*ssa.BinOp); ok && inc.Op == token.ADD && inc.X == cx {
+										if k, ok := constInt64(inc.Y); ok && k == 1 {
+											okc = true
+										}
 									}
 								}
 							}
@@ -1402,4 +1406,23 @@ func repeatOf(call *ssa.Call, ch byte) (ssa.Value, *ssa.Call) {
 		return nil, nil
 	}
 	return rep.Call.Args[1], rep
+}
+
+// loopsBackTo: from block b the block target is reachable again without passing through avoid.
+func loopsBackTo(b, target, avoid *ssa.BasicBlock) bool {
+	seen := map[*ssa.BasicBlock]bool{}
+	work := append([]*ssa.BasicBlock(nil), b.Succs...)
+	for len(work) > 0 {
+		x := work[len(work)-1]
+		work = work[:len(work)-1]
+		if seen[x] || x == avoid && x != target {
+			continue
+		}
+		seen[x] = true
+		if x == target {
+			return true
+		}
+		work = append(work, x.Succs...)
+	}
+	return false
 }
